@@ -5,6 +5,7 @@
 #![allow(unused)]
 pub mod util;
 pub mod dump;
+pub mod reuse;
 include!(concat!(env!("OUT_DIR"), "/dispatch.rs"));
 
 use std::io::{BufRead, Write};
